@@ -115,6 +115,17 @@ def family():
                stype('tc', [key('kc')], implements='aa', datatype=WRAP2),
                stype('td', [key('kd')], extends='tc')],
         items=[multisection('aa', '*', attr='xs'), multisection('td', '+', attr='ds')])
+    # a wildcard slot declared before a fixed-name slot of the same type (declaration order decides),
+    # empty-string defaults, a schema-level datatype
+    F['S14'] = schema(
+        types=[stype('ta', [key('ka', default=''), key('kb', 'string-list', default='')]),
+               stype('tb', [key('kb')])],
+        items=[multisection('ta', '*', attr='rest'),
+               section('ta', 'sa'),
+               section('tb', 'sb'),
+               multisection('tb', '+', attr='bs'),
+               key('kx', default=''), key('ky', 'basic-key', default='Ab')],
+        datatype=WRAP)
     # ---- thorough-only members
     F['S9'] = schema(
         types=[stype('ta', [key('+', attr='mp', required=True)])],
@@ -139,7 +150,7 @@ def family():
     return F
 
 
-QUICK = ['S1', 'S2', 'S3', 'S4', 'S5', 'S6', 'S7', 'S8', 'S9', 'S13']
+QUICK = ['S1', 'S2', 'S3', 'S4', 'S5', 'S6', 'S7', 'S8', 'S9', 'S13', 'S14']
 THOROUGH = QUICK + ['S10', 'S11', 'S12']
 
 
